@@ -143,7 +143,7 @@ pub fn run(ctx: &mut Ctx) {
         }
     }
     ctx.stratum("R-random-ranges-and-lists", false);
-    let n = ctx.tier.pick(30_000u64, 3_000_000u64);
+    let n = ctx.tier.n(30_000, 3_000_000);
     let maxp = ctx.tier.pick(4usize, 5usize);
     for i in 0..n {
         if !ctx.take() {
